@@ -156,3 +156,48 @@ Proof.
 Qed.
 Goal True. idtac "ASSUMPTIONS-OF C04_example_break_inside_literal". Abort.
 Print Assumptions C04_example_break_inside_literal.
+
+(* ... and in full generality: EVERY physical line of the continued statement may carry a trailing
+   comment ( x = a + &  ! note ), the pieces may be in any character context, and comment and empty
+   lines may stand between the lines.  The item is the concatenation of the pieces with the exact
+   span; every comment -- trailing or on its own line -- is queued exactly once, in source order, with
+   the number of the physical line it stands on (trailing comments flagged as such).  What the comment
+   handler does on each physical line is the per-line hypothesis hicr (code part, quote state left,
+   trailing comment): decidable for a concrete line, proved for the quote-free shape by
+   ReaderFile.hicr_trailing.  Any number of lines. *)
+From FV Require Import ReaderJoinG.
+Theorem C04_continuation_with_trailing_comments_on_any_line_partial :
+  forall ign line lab l1 nm tl1 p1 b21 q1 oc1 es bn pn tln ocn src lc fifo,
+    stripped line -> line <> [] -> starts_with ["#"%char] (lstrip line) = false ->
+    extract_label line = (lab, l1) -> extract_construct_name l1 = (nm, tl1) ->
+    amp_free p1 -> blanks b21 -> hicr tl1 None (p1 ++ "&"%char :: b21) q1 oc1 -> chain_g q1 es bn pn tln ocn ->
+    blanks bn -> amp_free pn -> pn <> [] -> negb (is_blank pn) = true -> stripped (bn ++ "&"%char :: tln) ->
+    strip (p1 ++ gtext es ++ pn) <> [] ->
+    get_source_item (ReaderJoin.st ign (line :: map phys_g es ++ (bn ++ "&"%char :: tln) :: src) lc fifo)
+    = (Some (RLine (strip (p1 ++ gtext es ++ pn)) lab nm (S lc) (S (S lc) + List.length es)),
+       ReaderJoin.st ign src (S (S lc) + List.length es)
+         (fifo ++ cmtl oc1 (S lc) ++ gcoms es (S (S lc)) ++ cmtl ocn (S (S lc) + List.length es))).
+Proof. exact item_of_continued_statement_g. Qed.
+Goal True. idtac "ASSUMPTIONS-OF C04_continuation_with_trailing_comments_on_any_line_partial". Abort.
+Print Assumptions C04_continuation_with_trailing_comments_on_any_line_partial.
+
+(* hypotheses met by a statement over four physical lines: trailing comments on the first, a middle
+   and the last line, a comment line in between, an exclamation mark inside a literal *)
+Example C04_example_trailing_comments :
+  let t := fun x => list_ascii_of_string x in
+  let es := [GMid (t " "%string) (t " b + "%string) (t "  "%string) (t " b + &  ! second"%string) (Some (t "! second"%string)) None;
+             GCom (t "   ! own line"%string)] in
+  hicr (t "x = a + &   ! first"%string) None (t "x = a + &   "%string) None (Some (t "! first"%string)) /\
+  chain_g None es (t " "%string) (t " 'c!d'   "%string) (t " 'c!d'   ! third"%string) (Some (t "! third"%string)) /\
+  get_source_item (ReaderJoin.st false [t "x = a + &   ! first"%string; t " & b + &  ! second"%string; t "   ! own line"%string;
+                                        t " & 'c!d'   ! third"%string] 0 [])
+  = (Some (RLine (t "x = a +  b +  'c!d'"%string) None None 1 4),
+     ReaderJoin.st false [] 4 [RComment (t "! first"%string) 1 1 true; RComment (t "! second"%string) 2 2 true;
+                               RComment (t "! own line"%string) 3 3 false; RComment (t "! third"%string) 4 4 true]).
+Proof.
+  cbv zeta. split; [intros n; vm_compute; reflexivity|]. split; [|vm_compute; reflexivity].
+  cbn [chain_g]. repeat split; try (vm_compute; reflexivity); try (intros n; vm_compute; reflexivity).
+  eexists. intros n; vm_compute; reflexivity.
+Qed.
+Goal True. idtac "ASSUMPTIONS-OF C04_example_trailing_comments". Abort.
+Print Assumptions C04_example_trailing_comments.
